@@ -5,6 +5,7 @@ package hub
 import (
 	"crypto/tls"
 	"errors"
+	"sync"
 
 	"github.com/enbility/ship-go/api"
 	"github.com/enbility/ship-go/model"
@@ -37,10 +38,19 @@ type hEvent struct {
 	C    *vConn
 }
 
-type hLog struct{ Ev []hEvent }
+type hLog struct {
+	mu sync.Mutex
+	Ev []hEvent
+}
 
-func (l *hLog) add(e hEvent) { l.Ev = append(l.Ev, e) }
+func (l *hLog) add(e hEvent) {
+	l.mu.Lock()
+	l.Ev = append(l.Ev, e)
+	l.mu.Unlock()
+}
 func (l *hLog) count(kind int) int {
+	l.mu.Lock()
+	defer l.mu.Unlock()
 	n := 0
 	for _, e := range l.Ev {
 		if e.Kind == kind {
@@ -103,7 +113,9 @@ type vConn struct {
 
 func (c *vConn) DataHandler() api.WebsocketDataWriterInterface { return c.handler }
 func (c *vConn) CloseConnection(safe bool, code int, reason string) {
+	c.log.mu.Lock()
 	c.closed++
+	c.log.mu.Unlock()
 	c.log.add(hEvent{Kind: hvConnClose, S: c.ski, A: code, B: safe, C: c})
 }
 func (c *vConn) RemoteSKI() string        { return c.ski }
